@@ -95,6 +95,15 @@ impl Reporter {
         let mut known_hits: BTreeMap<String, usize> = BTreeMap::new();
         let mut sigs = vec![];
         std::fs::create_dir_all(format!("{VERIF_DIR}/replays")).ok();
+        // replay files of earlier runs of this property are stale once it has been re-decided
+        if let Ok(rd) = std::fs::read_dir(format!("{VERIF_DIR}/replays")) {
+            for e in rd.flatten() {
+                let n = e.file_name().to_string_lossy().to_string();
+                if n.starts_with(&format!("{}-", self.property)) && n.ends_with(".json") {
+                    let _ = std::fs::remove_file(e.path());
+                }
+            }
+        }
         for (sig, (n, v, k)) in &self.by_sig {
             match k {
                 Some(id) => {
